@@ -719,6 +719,20 @@ for _how in ("left", "right", "inner"):
     for _sfx in (("_l", ""), ("", "_r")):
         P(f"jp_sfx_{_how}_{_sfx[0] or 'none'}{_sfx[1] or 'none'}", lambda t, how=_how, sfx=_sfx: (lambda m: m[m.b > 2])(t.df[["a", "b", "u"]].merge(t.df2[["a", "b", "w"]], on="a", how=how, suffixes=sfx)), order_free=True, index_free=True)
 P("value_counts_keepna_tree", lambda t: t.df.b.value_counts(dropna=False, split_out=1, split_every=2) if t.lazy else t.df.b.value_counts(dropna=False), order_free=True)
+# value_counts / unique counts of UNNAMED series (the counted values are an unnamed index of every chunk), all split_out settings
+P("series_unnamed_value_counts", lambda t: t.df.a.rename(None).value_counts(), order_free=True)
+P("series_unnamed_value_counts_float", lambda t: (t.df.b.rename(None) * 1.5).value_counts(), order_free=True)
+P("series_unnamed_value_counts_split2", lambda t: t.df.a.rename(None).value_counts(split_out=2) if t.lazy else t.df.a.rename(None).value_counts(), order_free=True)
+P("series_unnamed_value_counts_split_all", lambda t: t.df.u.rename(None).value_counts(split_out=True) if t.lazy else t.df.u.rename(None).value_counts(), order_free=True)
+P("series_unnamed_value_counts_str", lambda t: t.df.c.rename(None).value_counts(split_out=3) if t.lazy else t.df.c.rename(None).value_counts(), order_free=True)
+# a mask computed from a differently laid out copy of the frame (alignment inserted by the planner); plans must not grow on re-optimization
+# (when the repartitioned copy has unknown divisions - string index - the two are aligned by a hash shuffle: row order is then undefined)
+P("filter_by_mask_of_other_layout", lambda t: t.df[t.df.repartition(npartitions=2).a > 1] if t.lazy else t.df[t.df.a > 1], needs_known=True, order_free=True)
+P("filter_by_mask_of_other_layout_sum", lambda t: t.df[t.df.repartition(npartitions=2).u > 4].b.sum() if t.lazy else t.df[t.df.u > 4].b.sum(), needs_known=True)
+P("filter_by_mask_of_other_frame", lambda t: t.df[t.df3.u > 105], needs_known=True, needs_range=True)
+P("filter_by_mask_of_other_frame_sum", lambda t: t.df[t.df3.u > 103].u.sum(), needs_known=True, needs_range=True)
+P("tail_after_noop_repartition", lambda t: (t.df[["a", "u"]] + 1).repartition(npartitions=t.df.npartitions).tail(3, compute=False) if t.lazy else (t.df[["a", "u"]] + 1).tail(3), tags={"head"}, dask_only=True)
+P("head_after_noop_repartition", lambda t: (t.df[["a", "u"]] + 1).repartition(npartitions=t.df.npartitions).head(3, compute=False) if t.lazy else (t.df[["a", "u"]] + 1).head(3), tags={"head"}, dask_only=True)
 P("value_counts_tree", lambda t: t.df.a.value_counts(split_out=1, split_every=2) if t.lazy else t.df.a.value_counts(), order_free=True)
 # narrowing casts change values: 16777216 + odd is not representable in float32, 2**31 + k wraps in int32
 P("vc_astype_narrow_float32", lambda t: (lambda x: x[x.h >= 16777218.0])(t.df[["a", "u"]].assign(h=t.df.u + 16777216.0).astype({"h": "float32"})), tags={"valuechange"})
